@@ -337,6 +337,7 @@ func replayRing(sc *ringSched, stats map[string]int) string {
 	r := newRingRun()
 	defer r.abandon()
 	lastOp := map[string]string{}
+	waiting := map[string]bool{} // processes parked in cond.Wait
 	for i, raw := range sc.H {
 		st := parseRingStep(raw)
 		next := ""
@@ -360,6 +361,11 @@ func replayRing(sc *ringSched, stats map[string]int) string {
 		}
 		stats["step:"+st.k]++
 		parked := strings.HasSuffix(st.pc, ".parked")
+		if parked {
+			waiting[st.p] = true
+		} else if st.k == "w" {
+			delete(waiting, st.p)
+		}
 		if parked {
 			// the process goes into cond.Wait: no stop follows; it has released the mutex
 			// when the probe finds it free
@@ -425,6 +431,15 @@ func replayRing(sc *ringSched, stats map[string]int) string {
 		}
 		if next != "w" && !parked {
 			pf, cf := r.bf.VerifLocksFree()
+			// the last step of a schedule may have woken a waiter (in the replayable regime the wake-up would be the
+			// next step): it re-acquires its mutex on its own, so that mutex is not compared
+			last := i+1 == len(sc.H)
+			if last && waiting["P"] {
+				pf = st.pfree
+			}
+			if last && waiting["C"] {
+				cf = st.cfree
+			}
 			if pf != st.pfree || cf != st.cfree {
 				return fmt.Sprintf("%s: mutexes free (pcond.L=%v, ccond.L=%v), specification (%v, %v)", where, pf, cf, st.pfree, st.cfree)
 			}
@@ -473,6 +488,11 @@ func cmdRingReplay(a Args) {
 		if d != "" {
 			tag := "C15"
 			if strings.Contains(d, "received bytes") || strings.Contains(d, "cursors (") || strings.Contains(d, "units") {
+				tag = "C14"
+			}
+			// the specification makes the process wait (no room / no data) and the code went on: that is the
+			// overwrite / read-ahead half of the FIFO property, not a blocking problem
+			if strings.Contains(d, "the code went on to") || strings.HasSuffix(d, ".wait\"") || strings.HasSuffix(d, ".parked\"") {
 				tag = "C14"
 			}
 			res.mismatch(Mismatch{What: d, Tag: tag, Replay: map[string]interface{}{"schedule": sc.H}})
